@@ -60,7 +60,18 @@ def shard(p):
     cases = []
     while len(cases) < p["n"]:
         depth = rng.randint(1, p["depth"])
-        if rng.random() < 0.012:
+        if rng.random() < 0.004:
+            # a zero base under an exponent beyond 32 and 64 bits (the only base whose power costs nothing, so the exponent may be
+            # anything): 0 ^ -2147483649 is a division by zero like 0 ^ -1 (seed C01-j: sign and parity taken from an i32 conversion
+            # that fails, `None` read as zero)
+            e_ = rng.choice([2 ** 31, 2 ** 32, 2 ** 63, 2 ** 64, 10 ** 10, 10 ** 20]) + rng.choice([-1, 0, 1, 2])
+            e_ *= rng.choice([1, -1, -1])
+            z = rng.choice([("lit", "0", exact.Fraction(0)), ("bin", "-", exact.int_lit(7), exact.int_lit(7)), ("lit", "0.0", exact.Fraction(0)), ("bin", "*", exact.int_lit(0), exact.int_lit(5))])
+            t = ("bin", "^", z, exact.int_lit(e_))
+            if rng.random() < 0.5:
+                t = ("bin", rng.choice("+*"), t, exact.int_lit(rng.randint(1, 9)))
+            acc.count("zero_base_under_exponents_beyond_32_bits")
+        elif rng.random() < 0.012:
             t = exact.gen_cancel(rng)
             if rng.random() < 0.3:
                 t = ("bin", rng.choice("+-*"), t, exact.gen_literal(rng, 6, 3)) if rng.random() < 0.5 else ("bin", rng.choice("+-*"), exact.gen_literal(rng, 6, 3), t)
